@@ -7,8 +7,6 @@
 (*  c08_dense        sparse_matrix_from_triplets as a dense table          *)
 (*  c08_local_gram   the matrix the local eigensolver sees                 *)
 (*  c08_matrix_verdict  msym_b and const_vector_b on an assembled matrix  *)
-(*  c08_hlle_degenerate  some Gram-Schmidt column has u.u = 0 (the C++     *)
-(*                   divides by a norm that is 0 up to rounding)           *)
 (* ====================================================================== *)
 Require Import Arith List Bool ZArith QArith Qcanon.
 From TK Require Import Mat_Sums Mat_Core Mat_Qc Lle_Model Lle_Spec.
@@ -16,9 +14,9 @@ Import ListNotations.
 
 Definition c08_lle_run := @lle_run Qc QcOps (solve_checked qeqb).
 Definition c08_ltsa_run := @ltsa_run Qc QcOps.
-Definition c08_hlle_run := @hlle_run_sf Qc QcOps.
+Definition c08_hlle_run := @hlle_run_sf Qc QcOps (fun x => qeqb x 0%F).
 Definition c08_dense (n : nat) (T : list (@triplet Qc)) : list (list Qc) :=
-  mtab n n (from_triplets T).
+  mtab n n (from_triplets_fast T).
 Definition c08_local_gram (k : nat) (kern : mat Qc) (nb : nat -> nat) : list (list Qc) :=
   mtab k k (local_centered_gram k kern nb).
 Definition c08_eig_contract_b := eig_contract_b.
@@ -31,6 +29,3 @@ Definition c08_mof := @mof Qc QcOps.
 Definition c08_vof := @vof Qc QcOps.
 Definition c08_nbrs_of := @nbrs_of.
 Definition c08_k_of := @k_of.
-Definition c08_hlle_degenerate (shipped : bool) (k d : nat) (V : mat Qc) : bool :=
-  existsb (fun u => qeqb (dot k u u) 0%F)
-          (mgs_sf k [] (cols_of k (hlle_ncols d) (hlle_Yprod shipped d (fun _ _ => 0%F) V))).
